@@ -24,14 +24,23 @@ def check_c06(prop, tier, seed):
     t0 = time.time()
     wd = vlib.workdir("%s-%s" % (prop, tier))
     vlib.build_harness()
-    R, maxlen = (16, 3) if tier == "quick" else (24, 3)     # (4 R)^3 must stay below TLC's 10^6 set limit
-    cfg = vlib.tlc_cfg("Spec", {"R": R, "MaxLen": maxlen, "Targets": "{0, 1, 100, 101}"},
-                       ["ExactShare", "Residual", "Contiguous", "Certain", "Never"])
-    mc = vlib.run_tlc("Sampling", cfg, wd, "mc", workers=8, timeout=1500)
-    log("[C06] MC Sampling R=%d MaxLen=%d: %d vectors (initial states), %.1fs%s" % (
-        R, maxlen, mc["distinct"], mc["wall"], " VIOLATED " + mc["violated"] if mc["violated"] else ""))
-    if mc["error"] or mc["violated"] or mc["distinct"] == 0:
-        raise ToolError("model checking of Sampling failed: %s" % mc["out"])
+    # (4 R F)^3 must stay below TLC's 10^6 set limit; F > 1: weights finer than the draw
+    runs = [(16, 1, 3), (6, 4, 3)] if tier == "quick" else [(24, 1, 3), (8, 3, 3), (4, 6, 3)]
+    invs = ["ExactShare", "WholeShare", "Residual", "Contiguous", "DrawZero", "Certain", "Never"]
+    mc = None
+    for (R, F, maxlen) in runs:
+        cfg = vlib.tlc_cfg("Spec", {"R": R, "F": F, "MaxLen": maxlen, "Targets": "{0, 1, 100, 101}"}, invs)
+        m1 = vlib.run_tlc("Sampling", cfg, wd, "mc%d_%d" % (R, F), workers=8, timeout=1500)
+        log("[C06] MC Sampling R=%d F=%d MaxLen=%d: %d vectors (initial states), %.1fs%s" % (
+            R, F, maxlen, m1["distinct"], m1["wall"], " VIOLATED " + m1["violated"] if m1["violated"] else ""))
+        if m1["error"] or m1["violated"] or m1["distinct"] == 0:
+            raise ToolError("model checking of Sampling failed: %s" % m1["out"])
+        if mc is None:
+            mc = m1
+        else:
+            mc["distinct"] += m1["distinct"]
+            mc["states"] += m1["states"]
+    R, maxlen = runs[0][0], runs[0][2]
     recs = os.path.join(wd, "recs.ndjson")
     extra = 6 if tier == "quick" else 40
     pr = vlib.run_bin("sampling_enum", ["--out", recs, "--extra", extra, "--seed", seed])
@@ -262,7 +271,7 @@ def check_c11(prop, tier, seed):
     return generic_small(
         prop, tier, seed,
         "Codec", {"MAX": 4, "K": 8}, ["OkMeansValidated", "MemoryBounded", "RoundTrip"],
-        "codec_cases", ["--machines", 200 if q else 2000, "--bomb-mib", 64 if q else 1024],
+        "codec_cases", ["--machines", 200 if q else 2000, "--bomb-mib", 512 if q else 2048],
         "CodecTrace", {}, {"C11"},
         rule="round trips of generated valid machines (random, 1..10^4 states up to the size limit, extreme numeric fields); hostile strings: truncations, bit flips, replacements, wrong versions, non-ASCII, structure-level corruption of the bincode bytes, random strings, zlib streams inflating to 2 MiB - 1 GiB, for both parsers; non-trivial = round trips",
         assumptions=["byte-level fidelity of bincode / zlib / base64 is not modelled: the spec contributes the pipeline contract, the memory budget and the judgement of every record (DESIGN.md section 8)",
